@@ -2200,3 +2200,20 @@ def maybe_unbound(R, RID, modules=('session', 'websocket', 'stream', 'parser', '
                              construct='possibly unbound %s in %s' % (x.id, fi.qual))
     R.ob(RID, 'definite-assignment scan', n_fn >= 40, '%d functions with locals scanned' % n_fn, func=None, node=None,
          construct='unbound local scan')
+
+
+def sock_publications(g, field='self._sock'):
+    """Nodes of g that store a (non-None) value into the session's socket field - directly or as an element of a tuple
+    target (`self._sock, proxy = self._connect()`)."""
+    out = []
+    for n in g.live_nodes():
+        if n.kind != 'stmt' or not isinstance(n.ast, ast.Assign):
+            continue
+        hit = False
+        for t in n.ast.targets:
+            for t1 in (t.elts if isinstance(t, (ast.Tuple, ast.List)) else [t]):
+                if U(t1) == field:
+                    hit = True
+        if hit and U(n.ast.value) != 'None':
+            out.append(n)
+    return out
